@@ -2,9 +2,9 @@
 import itertools
 
 import common
-import gen
 import lib_buf as L
 from framework import Result
+from props import _util
 
 ID = 'C20'
 LEAN_TARGETS = ['TexSoupProofs.Properties.C20']
@@ -24,14 +24,6 @@ ASSUMPTIONS = ['CPython list/slice/iterator semantics',
                'are membership tests in a finite set of strings',
                'an element with empty text is falsy: hasNext and the scans stop at it (model, reference and '
                'implementation agree on this; the tokenizer never produces one, C19 token_nonempty)']
-
-
-class _Tally(set):
-    """Set of case hashes plus a plain counter for cases that are distinct by construction."""
-    extra = 0
-
-    def __len__(self):
-        return set.__len__(self) + self.extra
 
 
 def _sources(ctx):
@@ -54,7 +46,8 @@ def _plans(ctx):
     src = _sources(ctx)
     if not ctx.thorough:
         return [('bfs3', src, L.DEFAULT_OPS, 3)]
-    small = [s for s in src if len(s[1]) <= 2] + [('s', 'abc'), ('t', ['ab', 'c']), ('t', ['a', 'bc', 'a'])]
+    small = [('s', ''), ('s', 'a'), ('s', 'ab'), ('s', 'abc'), ('t', []), ('t', ['ab']), ('t', ['a', 'b']),
+             ('t', ['ab', 'c']), ('t', ['a', 'bc', 'a'])]
     return [('bfs3', src, L.DEFAULT_OPS, 3), ('bfs4', small, L.DEFAULT_OPS, 4), ('bfs5-core', src, L.CORE_OPS, 5)]
 
 
@@ -104,7 +97,7 @@ def _hist(inp):
 # ------------------------------------------------------------------------------------ correspondence
 
 def _corr_histories(hs):
-    model = L.model_batch(common.DRIVER, [L.request(*h) for h in hs])
+    model = _util.model([L.request(*h) for h in hs])
     n = nt = 0
     fails = []
     for h, m in zip(hs, model):
@@ -141,21 +134,20 @@ def _collect(r, results, label):
 
 def correspondence(ctx):
     r = Result()
-    r.nontrivial = _Tally()
+    r.nontrivial = _util.Tally()
     common.impl()
     plans = _plans(ctx)
     for label, sources, ops, depth in plans:
         units = _units([(label, sources, ops, depth)])
-        _collect(r, gen.pmap(_corr_unit, units, chunk=1), label + '_histories')
+        _collect(r, _util.pmap(_corr_unit, units), label + '_histories')
         r.bump(label + '_sources', len(sources))
         ctx.log('correspondence %s: %d sources x %d ops, depth %d: %d histories so far' % (
             label, len(sources), len(ops), depth, r.evaluations))
     chunks = _random_chunks(ctx.rng('corr-random'), ctx.pick(20000, 200000))
-    res = gen.pmap(_corr_chunk_random, chunks, chunk=1) if len(chunks) >= 400 else \
-        _pmap_small(_corr_chunk_random, chunks)
+    res = _util.pmap(_corr_chunk_random, chunks)
     _collect(r, res, 'random_histories')
     h = ('t', ['ab', 'c'], ['n', 'p:-1', 'f:3', 'n', 'b:1', 'u:' + L.enc_set(['c']), 'l:_:_'])
-    r.sample({'request': L.request(*h), 'impl': L.impl_run(*h), 'model': L.model_run(common.DRIVER, *h)})
+    r.sample({'request': L.request(*h), 'impl': L.impl_run(*h), 'model': _util.model([L.request(*h)])[0]})
     r.rule = ('model (buf request) vs TexSoup.utils.Buffer, canonical output AND cursor after every step: '
               + '; '.join('ALL sequences of %d ops over %d-op alphabet on %d sources (%s)' % (d, len(o), len(s), lab)
                           for lab, s, o, d in plans)
@@ -170,15 +162,6 @@ def correspondence(ctx):
 
 def _corr_chunk_random(hs):
     return _corr_histories(hs)
-
-
-def _pmap_small(fn, items):
-    """gen.pmap runs fewer than 400 items serially; pad-free parallel map for a few big chunks."""
-    import multiprocessing as mp
-    if len(items) < 2:
-        return [fn(x) for x in items]
-    with mp.get_context('fork').Pool(min(16, len(items))) as pool:
-        return pool.map(fn, items, chunksize=1)
 
 
 # ------------------------------------------------------------------------------------ oracle
@@ -238,7 +221,7 @@ def _oracle_chunk_random(hs):
 
 def oracle(ctx, seeds, scale):
     r = Result()
-    r.nontrivial = _Tally()
+    r.nontrivial = _util.Tally()
     common.impl()
     seen = [h for h in (_hist(s) for s in seeds) if h is not None]
     skipped = 0
@@ -246,12 +229,11 @@ def oracle(ctx, seeds, scale):
         n, nt, fails, _ = _oracle_histories(seen, True)
         _collect(r, [(n, nt, fails)], 'seed_histories')
     for label, sources, ops, depth in _plans(ctx):
-        res = gen.pmap(_oracle_unit, _units([(label, sources, ops, depth)]), chunk=1)
+        res = _util.pmap(_oracle_unit, _units([(label, sources, ops, depth)]))
         _collect(r, [x[:3] for x in res], label + '_in_scope_histories')
         skipped += sum(x[3] for x in res)
     chunks = _random_chunks(ctx.rng('oracle-random'), ctx.pick(20000, 200000) * scale)
-    res = gen.pmap(_oracle_chunk_random, chunks, chunk=1) if len(chunks) >= 400 else \
-        _pmap_small(_oracle_chunk_random, chunks)
+    res = _util.pmap(_oracle_chunk_random, chunks)
     _collect(r, [x[:3] for x in res], 'random_histories_truncated_to_scope')
     r.bump('bfs_histories_leaving_scope_skipped', skipped)
     h = ('s', 'abc', ['f:2', 'p:-1', 'r:-1:5', 'b:2', 'n', 'n', 'n', 'n'])
